@@ -12,6 +12,7 @@ from typing_extensions import Self
 from sigma import exceptions as sigma_exceptions
 from sigma.correlations import SigmaCorrelationRule, SigmaRuleReference
 from sigma.rule import SigmaDetection, SigmaDetections, SigmaLogSource, SigmaRule, SigmaRuleBase
+from sigma.rule.logsource import EmptyLogSource
 
 if TYPE_CHECKING:
     from sigma.exceptions import SigmaRuleLocation
@@ -95,6 +96,20 @@ class SigmaGlobalFilter(SigmaDetections):
 
 
 @dataclass
+class EmptySigmaGlobalFilter(SigmaGlobalFilter):
+    """
+    Empty global filter that is used as a placeholder for error handling purposes.
+    """
+
+    detections: dict[str, SigmaDetection] = field(default_factory=dict)
+    condition: list[str] = field(default_factory=list)
+
+    def __post_init__(self: Self) -> None:
+        # Skip all checks and initializations
+        pass
+
+
+@dataclass
 class SigmaFilter(SigmaRuleBase):
     """
     SigmaFilter class is used to represent a Sigma filter object.
@@ -118,6 +133,7 @@ class SigmaFilter(SigmaRuleBase):
         kwargs, errors = super().from_dict_common_params(sigma_filter, collect_errors, source)
 
         # parse log source
+        filter_logsource: SigmaLogSource = EmptyLogSource()
         try:
             filter_logsource = SigmaLogSource.from_dict(sigma_filter["logsource"], source)
         except KeyError:
@@ -136,6 +152,7 @@ class SigmaFilter(SigmaRuleBase):
             errors.append(e)
 
         # parse detections
+        filter_global_filter: SigmaGlobalFilter = EmptySigmaGlobalFilter()
         try:
             filter_global_filter = SigmaGlobalFilter.from_dict(sigma_filter["filter"], source)
         except KeyError:
